@@ -38,6 +38,18 @@ CHECKS = {
         "Tables are exposed after the pipeline's 4-dp rounding; tolerances are derived from that rounding and the local CP.",
         "DESIGN.md section 5 C05",
     ),
+    "C06": (
+        "Hypothesis @given problems (incl. matched CP bands, balanced and threshold shapes); oracle = exact zero set of the rational residual",
+        "Generated-input search (1.5k quick / 40k thorough): reported hot/cold pinch (target attributes and record temp_pinch) must equal max/min of the exact zero set with the run touching a utility-free end replaced by its process-side end; ordering and presence checked.",
+        "Cases with an exact non-zero residual below 1e-4 at a breakpoint are skipped and counted (absolute zero test of the code).",
+        "DESIGN.md section 5 C06",
+    ),
+    "C07": (
+        "Hypothesis @given GCC shapes (direct calls) and problems (pipeline); oracle = exact running-minimum envelope with exact closure temperatures",
+        "Generated-input search (5k+500 quick / 200k+10k thorough): H_net_np as a piecewise-linear function equals the exact envelope at all breakpoints and interval mid-points, H_net unchanged, inserted rows = exact closure temperatures (no more, no fewer), load profiles monotone, zero at the pinch side, ending in Qh / Qc; targeted search on the number of closures.",
+        "Direct shapes respect the routine's preconditions (H >= 0, a zero, quarter-integer enthalpies so nothing sits in the tolerance band).",
+        "DESIGN.md section 5 C07",
+    ),
     "C08": (
         "Hypothesis RuleBasedStateMachine over insertion histories; model = piecewise-linear column functions + CP step functions + expected row set",
         "Stateful model-based search (1.5k machines x <=12 steps quick / 40k x <=30 thorough): after every insertion call (list, scalar, re-insert, empty; above/below/inside, several per interval, duplicates, within-tolerance, unsorted) all populated curve columns equal the initial piecewise-linear functions, NaN columns stay NaN, rows strictly descending, widths = gap above, CP = interval CP, dH = CP x width, return value = rows added.",
